@@ -8,7 +8,7 @@
    it is refuted for today's code by the recorded finding D9. *)
 From Coq Require Import List ZArith Bool Relations.
 Import ListNotations.
-Require Import Gram.Model.Term Gram.Model.DeBruijn Gram.Model.Eval Gram.Spec.Typing Gram.Oracle.Infer Gram.Proofs.InferSound.
+Require Import Gram.Model.Term Gram.Model.DeBruijn Gram.Model.Eval Gram.Spec.Typing Gram.Oracle.Infer Gram.Proofs.InferSound Gram.Model.ModelB Gram.Proofs.ModelBProofs.
 
 Theorem C05_whnf_sound : forall fuel G t u, whnf fuel G t = Some u -> clos_refl_trans term (red G) t u.
 Proof. exact whnf_sound. Qed.
@@ -42,3 +42,11 @@ Theorem C05_examples :
 Proof. exact validator_examples. Qed.
 Check C05_examples : _ /\ _.
 Print Assumptions C05_examples.
+
+(* second sentence of the property, on the store-passing mirror of type_check_rec (Model B, tied to the
+   implementation by the MB correspondence stream): the elaborated term IS the source term; everything
+   the checker changes lives in the store of cells *)
+Theorem C05_elaboration_identity : forall fuel s G D t r, tcB fuel s G D t = Some r -> b_elab r = t.
+Proof. exact tcB_elab_identity. Qed.
+Check C05_elaboration_identity : forall fuel s G D t r, tcB fuel s G D t = Some r -> b_elab r = t.
+Print Assumptions C05_elaboration_identity.
